@@ -125,3 +125,293 @@ Definition is_proxy_key (k : str) : bool := existsb (beqb k) proxy_keys.
 (* two environs agree on every key outside D *)
 Definition agree_off (D : str -> bool) (e1 e2 : dict str) : Prop :=
   forall k, D k = false -> lookup k e1 = lookup k e2.
+
+(* ============================================================================================ *)
+(* C16 extension (appended): the functional specification of a trusted peer's request.           *)
+(* Written without reference to the model: which request is refused and why (refusal_reason),     *)
+(* which values are selected (select) and what every key of the environ handed to the             *)
+(* application is (spec_out).  Proved equal to the model in Proof/ProxyConverse*.v and run against *)
+(* the real middleware by checks/C16.py (S-fspec).                                                 *)
+(* ============================================================================================ *)
+
+(* ---- names ---------------------------------------------------------------------------------- *)
+Definition nm_xff : str := Eval vm_compute in s2l "x-forwarded-for".
+Definition nm_xfh : str := Eval vm_compute in s2l "x-forwarded-host".
+Definition nm_xfproto : str := Eval vm_compute in s2l "x-forwarded-proto".
+Definition nm_xfport : str := Eval vm_compute in s2l "x-forwarded-port".
+Definition nm_xfby : str := Eval vm_compute in s2l "x-forwarded-by".
+Definition nm_fwd : str := Eval vm_compute in s2l "forwarded".
+
+Definition hk_xff : str := Eval vm_compute in s2l "HTTP_X_FORWARDED_FOR".
+Definition hk_xfh : str := Eval vm_compute in s2l "HTTP_X_FORWARDED_HOST".
+Definition hk_xfproto : str := Eval vm_compute in s2l "HTTP_X_FORWARDED_PROTO".
+Definition hk_xfport : str := Eval vm_compute in s2l "HTTP_X_FORWARDED_PORT".
+Definition hk_xfby : str := Eval vm_compute in s2l "HTTP_X_FORWARDED_BY".
+Definition hk_fwd : str := Eval vm_compute in s2l "HTTP_FORWARDED".
+
+Definition mk_remote_addr : str := Eval vm_compute in s2l "REMOTE_ADDR".
+Definition mk_remote_host : str := Eval vm_compute in s2l "REMOTE_HOST".
+Definition mk_remote_port : str := Eval vm_compute in s2l "REMOTE_PORT".
+Definition mk_server_name : str := Eval vm_compute in s2l "SERVER_NAME".
+Definition mk_server_port : str := Eval vm_compute in s2l "SERVER_PORT".
+Definition mk_http_host : str := Eval vm_compute in s2l "HTTP_HOST".
+Definition mk_url_scheme : str := Eval vm_compute in s2l "wsgi.url_scheme".
+
+Definition p80 : str := Eval vm_compute in s2l "80".
+Definition p443 : str := Eval vm_compute in s2l "443".
+
+(* membership in trusted_proxy_headers (a set of lower-case names) *)
+Definition trusts (tph : list str) (name : str) : bool := existsb (beqb name) tph.
+(* the header's value, "" when it is absent *)
+Definition hdr (key : str) (e : dict str) : str := match lookup key e with Some v => v | None => [] end.
+
+(* ---- the text a (well quoted) field denotes ------------------------------------------------------ *)
+(* inside of a quoted-string: a backslash and the next character stand for that character *)
+Fixpoint unq_text (s : str) : str :=
+  match s with
+  | [] => []
+  | x :: t =>
+    match t with
+    | c :: s' => if x =? 92 then c :: unq_text s' else x :: unq_text t
+    | [] => [x]
+    end
+  end.
+Definition field_value (v : str) : str := if starts_dq v then unq_text (mid v) else v.
+
+(* an X-Forwarded-For element: OWS stripped, unquoted; a bare IPv6 address (colons, no dot, not
+   ending in "]") is put into brackets *)
+Definition dot : N := 46.
+Definition xff_address (h : str) : str :=
+  let v := field_value (strip h) in
+  if negb (memb dot v) && memb colon v && negb (ends_with_char rbr v) then lbr :: v ++ [rbr] else v.
+
+(* a forwarded-element: the value of the last pair name=value of THIS element (parameter names
+   and values are case-folded), "" when the element has no such pair *)
+Definition fwd_field (name el : str) : str :=
+  fold_left (fun acc p => let q := lower_latin1 p in
+                          if memb eqc q && beqb (pair_token q) name then field_value (pair_value q) else acc)
+            (split (strip el) [semi]) [].
+
+(* ---- hops ------------------------------------------------------------------------------------------ *)
+Definition elements (raw : str) : list str := split raw [comma].
+(* the k-th element from the right, the leftmost when there are fewer *)
+Definition picked (raw : str) (k : nat) : str := match pick (elements raw) k with Some h => h | None => [] end.
+(* the header handed on: the trusted suffix *)
+Definition pruned (raw : str) (k : nat) : str := strip (join [comma] (suffix (elements raw) k)).
+(* Forwarded: the oldest element of the trusted suffix that has the parameter *)
+Definition fwd_oldest (name raw : str) (k : nat) : str :=
+  first_nonempty (map (fwd_field name) (suffix (elements raw) k)).
+
+(* ---- what is selected -------------------------------------------------------------------------------- *)
+Record selection := { sel_client : str; sel_host : str; sel_proto : str; sel_port : str }.
+
+Definition fwd_active (tph : list str) (e : dict str) : bool := trusts tph nm_fwd && truthy (hdr hk_fwd e).
+Definition xf_client (tph : list str) (k : nat) (e : dict str) : str :=
+  if trusts tph nm_xff then match lookup hk_xff e with Some raw => xff_address (picked raw k) | None => [] end else [].
+Definition xf_host (tph : list str) (k : nat) (e : dict str) : str :=
+  if trusts tph nm_xfh then match lookup hk_xfh e with Some raw => field_value (strip (picked raw k)) | None => [] end else [].
+Definition xf_single (name key : str) (tph : list str) (e : dict str) : str :=
+  if trusts tph name then field_value (hdr key e) else [].
+
+Definition select (tph : list str) (k : nat) (e : dict str) : selection :=
+  if fwd_active tph e then
+    let raw := hdr hk_fwd e in
+    {| sel_client := match fwd_oldest t_for raw k with [] => xf_client tph k e | x => x end;
+       sel_host := fwd_oldest t_host raw k;
+       sel_proto := fwd_oldest t_proto raw k;
+       sel_port := [] |}
+  else
+    {| sel_client := xf_client tph k e;
+       sel_host := xf_host tph k e;
+       sel_proto := xf_single nm_xfproto hk_xfproto tph e;
+       sel_port := xf_single nm_xfport hk_xfport tph e |}.
+
+(* ---- when the request is refused (400), and why --------------------------------------------------------- *)
+Inductive category :=
+| CatXffQuoting | CatXfhQuoting
+| CatProtoQuoting | CatProtoSeveral | CatPortQuoting | CatPortSeveral
+| CatPairNoEq | CatPairPadded | CatPairQuoting
+| CatScheme | CatEmptyHost | CatEmptyClient.
+
+Definition orelse {A} (a b : option A) : option A := match a with Some _ => a | None => b end.
+Fixpoint first_some {A B} (f : A -> option B) (l : list A) : option B :=
+  match l with
+  | [] => None
+  | x :: l' => match f x with Some b => Some b | None => first_some f l' end
+  end.
+
+Definition list_reason (tph : list str) (name key : str) (e : dict str) (c : category) : option category :=
+  if trusts tph name
+  then match lookup key e with Some raw => if cat_list_quoting raw then Some c else None | None => None end
+  else None.
+Definition single_reason (tph : list str) (name key : str) (e : dict str) (cq cs : category) : option category :=
+  if trusts tph name
+  then if cat_single_quoting (hdr key e) then Some cq
+       else if cat_several_values (hdr key e) then Some cs else None
+  else None.
+Definition pair_reason (q : str) : option category :=
+  if cat_pair_no_eq q then Some CatPairNoEq
+  else if cat_pair_padded q then Some CatPairPadded
+  else if cat_pair_quoting q then Some CatPairQuoting else None.
+Definition element_reason (el : str) : option category :=
+  first_some (fun p => pair_reason (lower_latin1 p)) (split (strip el) [semi]).
+Definition forwarded_reason (raw : str) : option category := first_some element_reason (elements raw).
+Definition syntax_reason (tph : list str) (e : dict str) : option category :=
+  orelse (list_reason tph nm_xff hk_xff e CatXffQuoting)
+  (orelse (list_reason tph nm_xfh hk_xfh e CatXfhQuoting)
+  (orelse (single_reason tph nm_xfproto hk_xfproto e CatProtoQuoting CatProtoSeveral)
+  (orelse (single_reason tph nm_xfport hk_xfport e CatPortQuoting CatPortSeveral)
+          (if fwd_active tph e then forwarded_reason (hdr hk_fwd e) else None)))).
+Definition selection_reason (s : selection) : option category :=
+  if cat_scheme (sel_proto s) then Some CatScheme
+  else if empty_host (sel_host s) then Some CatEmptyHost
+  else if bad_client (sel_client s) then Some CatEmptyClient else None.
+Definition refusal_reason (tph : list str) (k : nat) (e : dict str) : option category :=
+  orelse (syntax_reason tph e) (selection_reason (select tph k e)).
+
+(* the header named in the 400 body *)
+Definition hn_xff : str := Eval vm_compute in s2l "X-Forwarded-For".
+Definition hn_xfh : str := Eval vm_compute in s2l "X-Forwarded-Host".
+Definition hn_xfproto : str := Eval vm_compute in s2l "X-Forwarded-Proto".
+Definition hn_xfport : str := Eval vm_compute in s2l "X-Forwarded-Port".
+Definition hn_fwd : str := Eval vm_compute in s2l "Forwarded".
+Definition hn_fwd_proto : str := Eval vm_compute in s2l "Forwarded Proto=".
+Definition hn_fwd_host : str := Eval vm_compute in s2l "Forwarded Host=".
+Definition category_header (fwd : bool) (c : category) : str :=
+  match c with
+  | CatXffQuoting => hn_xff
+  | CatXfhQuoting => hn_xfh
+  | CatProtoQuoting | CatProtoSeveral => hn_xfproto
+  | CatPortQuoting | CatPortSeveral => hn_xfport
+  | CatPairNoEq | CatPairPadded | CatPairQuoting => hn_fwd
+  | CatScheme => if fwd then hn_fwd_proto else hn_xfproto
+  | CatEmptyHost => if fwd then hn_fwd_host else hn_xfh
+  | CatEmptyClient => if fwd then hn_fwd else hn_xff
+  end.
+
+(* what each category says about the request (the converse direction of the characterisation) *)
+Definition category_holds (tph : list str) (k : nat) (e : dict str) (c : category) : bool :=
+  match c with
+  | CatXffQuoting => trusts tph nm_xff && match lookup hk_xff e with Some raw => cat_list_quoting raw | None => false end
+  | CatXfhQuoting => trusts tph nm_xfh && match lookup hk_xfh e with Some raw => cat_list_quoting raw | None => false end
+  | CatProtoQuoting => trusts tph nm_xfproto && cat_single_quoting (hdr hk_xfproto e)
+  | CatProtoSeveral => trusts tph nm_xfproto && cat_several_values (hdr hk_xfproto e)
+  | CatPortQuoting => trusts tph nm_xfport && cat_single_quoting (hdr hk_xfport e)
+  | CatPortSeveral => trusts tph nm_xfport && cat_several_values (hdr hk_xfport e)
+  | CatPairNoEq => fwd_active tph e &&
+      existsb (fun el => existsb (fun p => cat_pair_no_eq (lower_latin1 p)) (split (strip el) [semi])) (elements (hdr hk_fwd e))
+  | CatPairPadded => fwd_active tph e &&
+      existsb (fun el => existsb (fun p => cat_pair_padded (lower_latin1 p)) (split (strip el) [semi])) (elements (hdr hk_fwd e))
+  | CatPairQuoting => fwd_active tph e &&
+      existsb (fun el => existsb (fun p => cat_pair_quoting (lower_latin1 p)) (split (strip el) [semi])) (elements (hdr hk_fwd e))
+  | CatScheme => cat_scheme (sel_proto (select tph k e))
+  | CatEmptyHost => empty_host (sel_host (select tph k e))
+  | CatEmptyClient => bad_client (sel_client (select tph k e))
+  end.
+
+(* ---- the environ handed to the application, key by key --------------------------------------------------- *)
+Definition default_port (scheme : str) : str :=
+  if beqb scheme t_http then p80 else if beqb scheme t_https then p443 else [].
+Definition final_scheme (s : selection) (e : dict str) : option str :=
+  if truthy (sel_proto s) then Some (lower_latin1 (sel_proto s)) else lookup mk_url_scheme e.
+(* the port known before the host is looked at: X-Forwarded-Port, else the default port of the
+   forwarded scheme *)
+Definition port_before_host (s : selection) : str :=
+  if truthy (sel_proto s) && negb (truthy (sel_port s)) then default_port (lower_latin1 (sel_proto s)) else sel_port s.
+(* a port inside the forwarded host wins *)
+Definition final_port (s : selection) : str :=
+  if truthy (sel_host s) && has_port (sel_host s) then after_last colon (sel_host s) else port_before_host s.
+Definition port_is_default (port : str) (scheme : option str) : bool :=
+  match scheme with
+  | Some sc => (beqb port p80 && beqb sc t_http) || (beqb port p443 && beqb sc t_https)
+  | None => false
+  end.
+Definition server_name_value (h : str) : str := if has_port h then strip (host_text h) else h.
+(* HTTP_HOST: the forwarded host as it is when it carries a port; otherwise host:port unless the
+   port is the default port of the (final) scheme, 80 for http and 443 for https *)
+Definition http_host_value (s : selection) (e : dict str) : str :=
+  let h := sel_host s in
+  if has_port h then h
+  else let p := port_before_host s in
+       if truthy p && negb (port_is_default p (final_scheme s e)) then h ++ colon :: p else h.
+
+(* which kinds are cleared as untrusted: with Forwarded trusted every X-Forwarded-* kind, otherwise
+   the kinds that are not listed *)
+Definition kind_untrusted (tph : list str) (name : str) : bool :=
+  if trusts tph nm_fwd then negb (beqb name nm_fwd) else negb (trusts tph name).
+Definition header_out (tph : list str) (k : nat) (clear : bool) (e : dict str) (name key : str) (rewritten : bool) : option str :=
+  if clear && kind_untrusted tph name then None
+  else match lookup key e with
+       | Some raw => if rewritten then Some (pruned raw k) else Some raw
+       | None => None
+       end.
+
+(* the seven metadata keys, from the selection; every other key as it is in e *)
+Definition meta_out (s : selection) (e : dict str) (key : str) : option str :=
+  if beqb key mk_remote_addr || beqb key mk_remote_host then
+    if truthy (sel_client s) then Some (unbracket (addr_text (sel_client s))) else lookup key e
+  else if beqb key mk_remote_port then
+    match port_text (sel_client s) with Some p => Some p | None => lookup key e end
+  else if beqb key mk_server_name then
+    if truthy (sel_host s) then Some (server_name_value (sel_host s)) else lookup key e
+  else if beqb key mk_server_port then
+    if truthy (final_port s) then Some (final_port s) else lookup key e
+  else if beqb key mk_http_host then
+    if truthy (sel_host s) then Some (http_host_value s e) else lookup key e
+  else if beqb key mk_url_scheme then final_scheme s e
+  else lookup key e.
+(* the six proxy header keys: cleared when untrusted, pruned to the trusted suffix when list-valued
+   and trusted, otherwise handed on as they are *)
+Definition headers_out (tph : list str) (k : nat) (clear : bool) (e : dict str) (key : str) : option str :=
+  if beqb key hk_xff then header_out tph k clear e nm_xff hk_xff (trusts tph nm_xff)
+  else if beqb key hk_xfh then header_out tph k clear e nm_xfh hk_xfh (trusts tph nm_xfh)
+  else if beqb key hk_xfproto then header_out tph k clear e nm_xfproto hk_xfproto false
+  else if beqb key hk_xfport then header_out tph k clear e nm_xfport hk_xfport false
+  else if beqb key hk_xfby then header_out tph k clear e nm_xfby hk_xfby false
+  else if beqb key hk_fwd then header_out tph k clear e nm_fwd hk_fwd (fwd_active tph e)
+  else lookup key e.
+Definition spec_out (tph : list str) (k : nat) (clear : bool) (e : dict str) (key : str) : option str :=
+  if is_proxy_key key then headers_out tph k clear e key else meta_out (select tph k e) e key.
+
+(* ---- a grammar of well-formed proxy headers (sufficient for acceptance) ---------------------------------- *)
+(* characters of a node / host name: ALPHA DIGIT . - _ : [ ]  (no whitespace, no DQUOTE, no
+   backslash, no comma, semicolon or "=") *)
+Definition is_alnum (x : N) : bool :=
+  ((48 <=? x) && (x <=? 57)) || ((65 <=? x) && (x <=? 90)) || ((97 <=? x) && (x <=? 122)).
+Definition is_node_char (x : N) : bool :=
+  is_alnum x || (x =? 46) || (x =? 45) || (x =? 95) || (x =? 58) || (x =? 91) || (x =? 93).
+(* a node / host: non-empty, node characters, does not begin with ":" *)
+Definition wf_node (s : str) : bool :=
+  match s with
+  | x :: _ => negb (x =? 58) && forallb is_node_char s
+  | [] => false
+  end.
+(* bare or quoted *)
+Definition wf_value (body_ok : str -> bool) (v : str) : bool :=
+  if starts_dq v then ends_dq v && (2 <=? N.of_nat (List.length v)) && body_ok (mid v) else body_ok v.
+(* a member of an X-Forwarded-For / X-Forwarded-Host list: OWS node OWS or OWS DQUOTE node DQUOTE OWS *)
+Definition wf_list_member (el : str) : bool := wf_value wf_node (strip el).
+Definition wf_list (raw : str) : bool := forallb wf_list_member (elements raw).
+Definition is_scheme (s : str) : bool := beqb (lower_latin1 s) t_http || beqb (lower_latin1 s) t_https.
+Definition wf_proto (v : str) : bool := match v with [] => true | _ => wf_value is_scheme v end.
+Definition is_port_numeral (s : str) : bool := match s with [] => false | _ => forallb is_digit s end.
+Definition wf_port (v : str) : bool := match v with [] => true | _ => wf_value is_port_numeral v end.
+(* forwarded-pair: token "=" value, no whitespace anywhere; for/by: a node, host: a host,
+   proto: http / https, any other parameter: a token or a quoted node; empty pairs are skipped *)
+Definition is_tchar (x : N) : bool := is_alnum x || (x =? 45) || (x =? 95) || (x =? 46).
+Definition wf_token (s : str) : bool := match s with [] => false | _ => forallb is_tchar s end.
+Definition wf_pair (q : str) : bool :=      (* q: the pair, case-folded *)
+  match q with
+  | [] => true
+  | _ => memb eqc q && wf_token (pair_token q) &&
+         (if beqb (pair_token q) t_proto then wf_value is_scheme (pair_value q) else wf_value wf_node (pair_value q))
+  end.
+Definition wf_element (el : str) : bool := forallb (fun p => wf_pair (lower_latin1 p)) (split (strip el) [semi]).
+Definition wf_forwarded (raw : str) : bool := forallb wf_element (elements raw).
+
+Definition wf_headers (tph : list str) (e : dict str) : bool :=
+  (negb (trusts tph nm_xff) || match lookup hk_xff e with Some raw => wf_list raw | None => true end) &&
+  (negb (trusts tph nm_xfh) || match lookup hk_xfh e with Some raw => wf_list raw | None => true end) &&
+  (negb (trusts tph nm_xfproto) || wf_proto (hdr hk_xfproto e)) &&
+  (negb (trusts tph nm_xfport) || wf_port (hdr hk_xfport e)) &&
+  (negb (fwd_active tph e) || wf_forwarded (hdr hk_fwd e)).
